@@ -205,6 +205,16 @@ def chain1d_probe(ctx, d, cls, model, g, method_name, nquad, corr=True, syntheti
                                                                  "rate_over_intensity": float(q[k]) / intensity}, cls=cls)
                     ok = False
                     break
+    if (ok and method_name == "BINARYSEARCHTREEADAPTED1D" and intensity > 0 and arithmetic and 0 < o < n - 1
+            and math.isclose(ax[o - 1], -g.h, rel_tol=1e-12) and math.isclose(ax[o + 1], g.h, rel_tol=1e-12)):
+        # S: the adapted sampler first chooses the side of the origin; the probability of the left side must be the summed
+        # rate of the states left of the origin over the intensity (rates themselves were checked against the density above)
+        left = sum(max(float(x), 0.0) for x in q[:o])
+        pl = float(mc.sampling._proba_left_axis)
+        if not abs(pl * intensity - left) <= 1e-12 * intensity:
+            ctx.fail("oracle", "c01.adapted_left_block_is_rate_sum", d,
+                     {"proba_left_axis": pl, "left_rates_over_intensity": left / intensity, "intensity": float(intensity)}, cls=cls)
+            ok = False
     if not ok or not corr:
         return
     # ---- C: cell structure
